@@ -240,7 +240,7 @@ def worker_main(infile, outfile):
         post["bnd_dic_empty"] = len(rec["bnd_after"]) == 0; det["bnd_dic_empty"] = rec["bnd_after"]
         # P8 save -> fresh model -> load
         try:
-            path = os.path.join(tdir, "fit_%s_%d.json" % (cset, ci))
+            path = os.path.join(tdir, "fit_%s_%d_%d.json" % (cset, spec["seed"], ci))
             res.save_as(path)
             with quiet():
                 fresh = ConfigLoader(json.loads(json.dumps(cdict)))
@@ -253,7 +253,7 @@ def worker_main(infile, outfile):
             post["save_load"] = bool(ok) and not badl and abs(nll_fresh - nll_state) <= 1e-9 * max(1.0, abs(nll_state))
             det["save_load"] = {"params": dict(list(badl.items())[:4]), "nll_fresh": nll_fresh, "nll_state": nll_state}
             # and through ConfigLoader.save_params
-            path2 = os.path.join(tdir, "params_%s_%d.json" % (cset, ci))
+            path2 = os.path.join(tdir, "params_%s_%d_%d.json" % (cset, spec["seed"], ci))
             config.save_params(path2)
             with quiet():
                 fresh2 = ConfigLoader(json.loads(json.dumps(cdict)))
